@@ -51,6 +51,7 @@ class Model(object):
     self.groups = []           # per group: dict(name, entered, teardown_phases, ...)
     self.probe = {}
     self._td_ctx = False
+    self.alt_outcomes = set()
     # single-abort semantics (DESIGN.md, C03/C04): the abort takes effect at
     # one of the enumerated points of the execution
     self.abort_at = None       # index of the point at which the abort lands
@@ -203,6 +204,7 @@ class Model(object):
     o = ph['opts']
     L = o['repeat_limit'] or 3
     i = 1
+    n_before = len(self.records)
     self._td_ctx = td
     while True:
       is_last = i >= L
@@ -232,10 +234,17 @@ class Model(object):
         self.count('repeat')
         continue
       break
-    if (self.s['stop_on_first_failure'] or self.s['conf_stop_on_first_failure']) and wrote \
-        and self.records[-1][1] == 'FAIL':
-      res = 'STOP'
-      self.count('stop_on_first_failure')
+    if (self.s['stop_on_first_failure'] or self.s['conf_stop_on_first_failure']) and \
+        len(self.records) > n_before and self.records[-1][1] == 'FAIL':
+      if is_terminal_result(res) and res != 'STOP' and self.first_terminal is None:
+        # a failed invocation was being repeated when a later iteration ended terminally
+        # without a record of its own (run_if raised): "stop on first failure" (FAIL) and
+        # "the exception decides" (ERROR/TIMEOUT) both describe the run
+        self.alt_outcomes.add('FAIL')
+        self.count('stop_on_first_failure_vs_later_terminal')
+      else:
+        res = 'STOP'
+        self.count('stop_on_first_failure')
     if is_terminal_result(res):
       if self.first_terminal is None:
         self.first_terminal = res
@@ -421,9 +430,9 @@ class Model(object):
       if ft.startswith('EXC:'):
         if ft == 'EXC:FailExc' and self.s['failure_exceptions']:
           return {'FAIL'}
-        return {'ERROR'}
+        return {'ERROR'} | self.alt_outcomes
       if ft == 'TIMEOUT':
-        return {'TIMEOUT'}
+        return {'TIMEOUT'} | self.alt_outcomes
       return {'FAIL'}
     recs = self.records
     if any(r[1] == 'FAIL' for r in recs):
